@@ -148,7 +148,24 @@ def jax_eval(cj, args, x64):
 
 
 def _test_vectors(prog, shapes, dtypes, int_nozero, seed=0):
-    """repo-style seeded draw + a fixed boundary vector."""
+    """repo-style seeded draw + a fixed boundary vector (operands with a documented monotonicity
+    precondition are sorted accordingly)."""
+    vecs = _test_vectors_raw(prog, shapes, dtypes, int_nozero, seed)
+    srt = prog.meta.get("sorted_inputs") or {}
+    if srt:
+        for v in vecs:
+            for idx, mode in srt.items():
+                if idx < len(v) and np.asarray(v[idx]).ndim >= 1:
+                    a = np.sort(np.asarray(v[idx]), axis=-1)
+                    if mode == "sinc":
+                        a = a + np.arange(a.shape[-1]).astype(a.dtype) * (np.asarray(1, dtype=a.dtype) if a.dtype.kind in "iu" else np.asarray(0.125, dtype=a.dtype))
+                    if mode == "dec":
+                        a = a[..., ::-1]
+                    v[idx] = np.ascontiguousarray(a)
+    return vecs
+
+
+def _test_vectors_raw(prog, shapes, dtypes, int_nozero, seed=0):
     rng = np.random.default_rng(1234 + seed)
     vecs = []
     v = []
@@ -318,6 +335,16 @@ def validate(prog, cj, model, shapes, opts: Options, ref_fn=None, pre=None) -> d
     # declared input element types may differ (the model is authoritative for feeding)
     constraints = []
     ins = [S.fresh_input(f"x{i}", s, dt, constraints) for i, (s, dt) in enumerate(zip(shapes, dtypes))]
+    for idx, mode in (prog.meta.get("sorted_inputs") or {}).items():
+        if idx < len(ins) and ins[idx].a.ndim >= 1:
+            a = ins[idx].a
+            for pos in np.ndindex(*a.shape[:-1]):
+                row = a[pos]
+                for k in range(len(row) - 1):
+                    x, y = (row[k], row[k + 1]) if mode != "dec" else (row[k + 1], row[k])
+                    # "sinc": strictly increasing with gaps >= 2^-20 (jnp.interp treats |dx| below ~5e-32
+                    # as a repeated abscissa; gaps below the bound are outside the claim)
+                    constraints.append((y - x >= (1 if ins[idx].kind == "i" else 2.0 ** -20)) if mode == "sinc" else x <= y)
     pvals = {k: S.from_numpy(np.asarray(v)) for k, v in prog.input_params.items()}
     gins = model_io(model, prog)
     pnames = set(prog.input_params)
@@ -676,10 +703,34 @@ def replay_concrete(prog, cj, model, arrays, pos_names):
                                     own = np.maximum(own, np.minimum(deltas[0], deltas[1]))
                             slack = 1e-12 if strict64 else 1e-5
                             bad = bad & np.isfinite(r64) & (np.abs(o64 - r64) > 32 * own + slack * (1 + np.abs(r64)))
+                if np.any(bad) and strict64:
+                    # double-precision accuracy of ONNX Runtime's own kernels (its double Softmax carries
+                    # ~1e-8 relative error) is outside the claim: when the ONNX reference evaluator
+                    # (numpy, float64) agrees with JAX on this very model and input, the difference is
+                    # ORT's arithmetic, not the exported graph
+                    if "_refeval" not in info:
+                        info["_refeval"] = _reference_eval(model, feeds)
+                    ro = info["_refeval"]
+                    if ro is not None and len(ro) == len(oout) and np.asarray(ro[i]).shape == o64.shape:
+                        r = np.asarray(ro[i]).astype(np.float64)
+                        if not np.any(fin & ~(np.abs(r - j64a) <= 1e-9 * (1 + np.abs(j64a)))):
+                            info.setdefault("ort_kernel_accuracy", []).append(i)
+                            bad = np.zeros_like(bad)
                 if np.any(bad):
+                    info.pop("_refeval", None)
                     info["why"] = f"output {i} float values differ beyond tolerance"
                     return True, info
+    info.pop("_refeval", None)
     return False, info
+
+
+def _reference_eval(model, feeds):
+    try:
+        from onnx.reference import ReferenceEvaluator
+
+        return ReferenceEvaluator(model).run(None, feeds)
+    except Exception:
+        return None
 
 
 def _jax64(prog, arrays):
@@ -735,6 +786,8 @@ def _replay_candidates(prog, cj, model, shapes, dtypes, pos_names, ins, cands, o
     # boundary vectors as a last resort
     for arrays in _test_vectors(prog, shapes, dtypes, False)[1:]:
         try:
+            if not _in_domain(prog, cj, model, arrays, pos_names):
+                continue
             differs, info = replay_concrete(prog, cj, model, arrays, pos_names)
         except Exception:
             continue
@@ -746,6 +799,45 @@ def _replay_candidates(prog, cj, model, shapes, dtypes, pos_names, ins, cands, o
     out["reason"] = f"{spurious} solver models did not reproduce on ORT vs JAX (abstraction)"
     out["spurious"] = spurious
     return out
+
+
+def _in_domain(prog, cj, model, arrays, pos_names):
+    """is this concrete input vector inside the domain predicates of both evaluators (divisor != 0,
+    shift amounts below the width, indices in bounds, casts in range, ...)?"""
+    try:
+        jctx = jax_sem.JCtx(unroll=64)
+        consts = [jax_sem.literal_T(np.asarray(c), v.aval) for c, v in zip(cj.consts, cj.jaxpr.constvars)]
+        jax_sem.eval_jaxpr(jctx, cj.jaxpr, consts, [S.from_numpy(np.asarray(a)) for a in arrays])
+        if jctx.violated:
+            return False
+        for d in list(jctx.domain) + list(jctx.index_domain):
+            if d is False or (S.is_sym(d) and z3.is_false(z3.simplify(d))):
+                return False
+    except DomainError:
+        return False
+    except Exception:
+        return True
+    try:
+        gins = {g.name: g for g in model_io(model, prog)}
+        in_nchw = set(prog.config.get("inputs_as_nchw") or ())
+        feeds = {}
+        for i, (n, a) in enumerate(zip(pos_names, arrays)):
+            mdt = onnx_sem.np_dtype_of(gins[n].type.tensor_type.elem_type)
+            aa = np.transpose(a, (0, 3, 1, 2)) if i in in_nchw else a
+            feeds[n] = S.from_numpy(np.require(np.asarray(aa).astype(mdt), requirements="C"), mdt)
+        for k, v in prog.input_params.items():
+            if k in gins:
+                mdt = onnx_sem.np_dtype_of(gins[k].type.tensor_type.elem_type)
+                feeds[k] = S.from_numpy(np.asarray(v).astype(mdt), mdt)
+        _, octx = onnx_sem.run_model(model, feeds, unroll=64)
+        for d in octx.domain:
+            if d is False or (S.is_sym(d) and z3.is_false(z3.simplify(d))):
+                return False
+    except DomainError:
+        return False
+    except Exception:
+        return True
+    return True
 
 
 def _replay_shape(prog, cj, model, shapes, dtypes, pos_names, out, opts):
